@@ -90,6 +90,18 @@ func init() {
 				s0.DetectAlphabet()
 				s0.NumGaps()
 			}
+			// every row against every row as reference, nucleotide and codon (aa) listings
+			for i := 0; i < n; i++ {
+				for j := 0; j < n; j++ {
+					si, _ := al.Sequence(i)
+					sj, _ := al.Sequence(j)
+					si.NumMutationsComparedToReferenceSequence(al.Alphabet(), sj)
+					si.ListMutationsComparedToReferenceSequence(al.Alphabet(), sj, false)
+					if al.Alphabet() == align.NUCLEOTIDS {
+						si.ListMutationsComparedToReferenceSequence(al.Alphabet(), sj, true)
+					}
+				}
+			}
 			al.LongestORF(true)
 		case "coords":
 			nm, _ := al.GetSequenceNameById(0)
